@@ -730,8 +730,10 @@ func replay(run *vlib.Run, path string) {
 	fmt.Printf("replay %s: reference=%v (%s) gocoin=%v panic=%v flags=%s\n", path, refOK, refErr, got, pan, flagNames(flags))
 	run.Count("evaluations", 1)
 	run.Distinct("triples", path)
-	if pan != nil || got != refOK {
-		run.Violation("replay-disagreement", "replayed case still disagrees", map[string]interface{}{"path": path})
+	if pan != nil {
+		run.Violation("crash/replay", fmt.Sprintf("panic escaped VerifyTxScript: %v", pan), map[string]interface{}{"path": path})
+	} else if got != refOK {
+		run.Violation(classOf(sp, refOK, refErr, flags, got), "replayed case still disagrees", map[string]interface{}{"path": path})
 	}
 	keys := []string{}
 	_ = sort.Strings
